@@ -1,9 +1,25 @@
 /-
-  Meaning of the Go fixed-width conversions that tools/go2lean emits.
-  `Go.wrapU k x` is `uintK(x)`, `Go.wrapS k x` is `intK(x)` (two's complement wrap-around).
-  `k = 0` is an untyped constant conversion (identity).
+  Meaning of the Go constructs that tools/go2lean emits (the vocabulary of `GoSecs/Gen/Funcs.lean`).
+  This file is part of the trusted base of the translator tie (T1): every definition is meant to be
+  readable as the Go language specification's rule for the construct.  Core Lean only (the driver links it).
+
+  Representation
+  * every Go integer type is `Int`.  `int`/`int64` are treated as unbounded (overflow of a 64-bit signed
+    value is outside the model); every other width is wrapped explicitly after each operation that can
+    leave the range: `Go.wrapU k x` is `uintK(x)`, `Go.wrapS k x` is `intK(x)` (two's complement).
+    `k = 0` is an untyped constant conversion (identity).
+  * `[]byte`, `[N]byte` and `string` are `Go.Bytes = List UInt8` (an array value is a list of exactly N bytes).
+  * a panic (index / slice bound out of range, short buffer handed to `binary.BigEndian`, explicit `panic`)
+    is `none`: a function that contains an operation which can panic returns `Option _`.
+  * `error` is `Go.Err = Option String`: `nil` is `none`, a non-nil error is identified by the sentinel it
+    wraps (`fmt.Errorf("…%w…", ErrX)` and `ErrX` are both `some "ErrX"`) or by its literal message.
 -/
 namespace Go
+
+abbrev Bytes := List UInt8
+abbrev Err := Option String
+
+/-! ### fixed-width integers -/
 
 def wrapU (k : Nat) (x : Int) : Int := if k = 0 then x else x % (2 ^ k : Int)
 
@@ -16,5 +32,177 @@ theorem wrapU_of_range (k : Nat) (x : Int) (h0 : 0 ≤ x) (h1 : x < 2 ^ k) : wra
   unfold wrapU; split
   · rfl
   · exact Int.emod_eq_of_lt h0 h1
+
+/-- `a << k` before truncation to the operand type (the translator wraps the result). -/
+def shl (a k : Int) : Int := a * 2 ^ k.toNat
+/-- `a >> k`: floor division (logical shift for unsigned, arithmetic for signed operands). -/
+def shr (a k : Int) : Int := a / 2 ^ k.toNat
+/-- `a & b`, `a | b`, `a ^ b` on non-negative operands (the translator only emits them for unsigned types). -/
+def band (a b : Int) : Int := ((a.toNat &&& b.toNat : Nat) : Int)
+def bor (a b : Int) : Int := ((a.toNat ||| b.toNat : Nat) : Int)
+def bxor (a b : Int) : Int := ((a.toNat ^^^ b.toNat : Nat) : Int)
+
+/-! ### bytes -/
+
+/-- `byte(x)` stored into a byte slice; `x` is already in `[0, 256)`. -/
+def byte (x : Int) : UInt8 := UInt8.ofNat x.toNat
+/-- the value of a stored byte as a Go integer. -/
+def u8 (b : UInt8) : Int := (b.toNat : Int)
+def len (b : Bytes) : Int := (b.length : Int)
+/-- `b[i]` where the bound is known statically (constant index into an array). -/
+def getB (b : Bytes) (i : Nat) : Int := u8 (b.getD i 0)
+/-- `b[i]` with the run-time bounds check. -/
+def idx? (b : Bytes) (i : Int) : Option Int :=
+  if 0 ≤ i then (b[i.toNat]?).map u8 else none
+/-- `b[i:j]` where the bounds are known statically. -/
+def slice (b : Bytes) (i j : Nat) : Bytes := (b.drop i).take (j - i)
+/-- `b[i:j]` with the run-time bounds check `0 ≤ i ≤ j ≤ len(b)` (slicing past `len` into spare capacity is
+    treated as a panic). -/
+def slice? (b : Bytes) (i j : Int) : Option Bytes :=
+  if 0 ≤ i ∧ i ≤ j ∧ j ≤ (b.length : Int) then some (slice b i.toNat j.toNat) else none
+/-- `b[i] = v` with a statically known bound. -/
+def set (b : Bytes) (i : Nat) (v : Int) : Bytes := b.set i (byte v)
+def set? (b : Bytes) (i : Int) (v : Int) : Option Bytes :=
+  if 0 ≤ i ∧ i < (b.length : Int) then some (set b i.toNat v) else none
+/-- the new contents of `dst` after `copy(dst, src)`: `min(len dst, len src)` bytes are overwritten. -/
+def copy (dst src : Bytes) : Bytes := src.take dst.length ++ dst.drop src.length
+/-- `b` after its window `b[i : i+len seg]` has been replaced by `seg` (write through a sub-slice). -/
+def splice (b : Bytes) (i : Nat) (seg : Bytes) : Bytes := b.take i ++ seg ++ b.drop (i + seg.length)
+/-- `make([]byte, n)` / `make([]byte, n, c)`: panics when `n < 0` or `c < n`. -/
+def make? (n c : Int) : Option Bytes := if 0 ≤ n ∧ n ≤ c then some (List.replicate n.toNat 0) else none
+/-- `[N]byte(b)`: panics when `len(b) < N`. -/
+def toArray? (n : Nat) (b : Bytes) : Option Bytes := if n ≤ b.length then some (b.take n) else none
+
+/-! ### encoding/binary (big endian) -/
+
+def be16 (v : Int) : Bytes := [byte (v / 256 % 256), byte (v % 256)]
+def be32 (v : Int) : Bytes :=
+  [byte (v / 16777216 % 256), byte (v / 65536 % 256), byte (v / 256 % 256), byte (v % 256)]
+def be64 (v : Int) : Bytes := be32 (v / 4294967296 % 4294967296) ++ be32 (v % 4294967296)
+def beU16 (b : Bytes) : Int := getB b 0 * 256 + getB b 1
+def beU32 (b : Bytes) : Int := getB b 0 * 16777216 + getB b 1 * 65536 + getB b 2 * 256 + getB b 3
+def beU64 (b : Bytes) : Int := beU32 b * 4294967296 + beU32 (b.drop 4)
+def beU16? (b : Bytes) : Option Int := if 2 ≤ b.length then some (beU16 b) else none
+def beU32? (b : Bytes) : Option Int := if 4 ≤ b.length then some (beU32 b) else none
+def beU64? (b : Bytes) : Option Int := if 8 ≤ b.length then some (beU64 b) else none
+/-- contents of `dst` after `binary.BigEndian.PutUintN(dst, v)` (panics when `dst` is too short). -/
+def put? (dst src : Bytes) : Option Bytes := if src.length ≤ dst.length then some (copy dst src) else none
+
+/-! ### loops
+
+  `for i, v := range b` is a fold over the list; `for i := lo; i < hi; i += step` (constant positive step,
+  `i` and `hi` not assigned in the body) runs exactly `iters lo hi step` times.  Bodies that `return`,
+  `break` or `continue` produce a `Ctl`; the loop yields `.error r` when the body returned `r` and
+  `.ok s` (the loop-carried variables) when it ran to completion or broke out.  The `…M` variants are the
+  same loops for bodies that may panic. -/
+
+inductive Ctl (σ ρ : Type) where
+  | next (s : σ)
+  | brk (s : σ)
+  | ret (r : ρ)
+
+def iters (lo hi step : Int) : Nat := if lo < hi then ((hi - lo + step - 1) / step).toNat else 0
+
+def foldBFrom {σ : Type} (f : Int → Int → σ → σ) : Int → Bytes → σ → σ
+  | _, [], s => s
+  | i, x :: xs, s => foldBFrom f (i + 1) xs (f i (u8 x) s)
+def foldB {σ : Type} (b : Bytes) (f : Int → Int → σ → σ) (s : σ) : σ := foldBFrom f 0 b s
+
+def foldBFromM {σ : Type} (f : Int → Int → σ → Option σ) : Int → Bytes → σ → Option σ
+  | _, [], s => some s
+  | i, x :: xs, s => (f i (u8 x) s).bind (foldBFromM f (i + 1) xs)
+def foldBM {σ : Type} (b : Bytes) (f : Int → Int → σ → Option σ) (s : σ) : Option σ := foldBFromM f 0 b s
+
+def loopBFrom {σ ρ : Type} (f : Int → Int → σ → Ctl σ ρ) : Int → Bytes → σ → Except ρ σ
+  | _, [], s => .ok s
+  | i, x :: xs, s =>
+    match f i (u8 x) s with
+    | .next s' => loopBFrom f (i + 1) xs s'
+    | .brk s' => .ok s'
+    | .ret r => .error r
+def loopB {σ ρ : Type} (b : Bytes) (f : Int → Int → σ → Ctl σ ρ) (s : σ) : Except ρ σ := loopBFrom f 0 b s
+
+def loopBFromM {σ ρ : Type} (f : Int → Int → σ → Option (Ctl σ ρ)) : Int → Bytes → σ → Option (Except ρ σ)
+  | _, [], s => some (.ok s)
+  | i, x :: xs, s =>
+    match f i (u8 x) s with
+    | none => none
+    | some (.next s') => loopBFromM f (i + 1) xs s'
+    | some (.brk s') => some (.ok s')
+    | some (.ret r) => some (.error r)
+def loopBM {σ ρ : Type} (b : Bytes) (f : Int → Int → σ → Option (Ctl σ ρ)) (s : σ) : Option (Except ρ σ) :=
+  loopBFromM f 0 b s
+
+def foldUpN {σ : Type} (step : Int) (f : Int → σ → σ) : Nat → Int → σ → σ
+  | 0, _, s => s
+  | n + 1, i, s => foldUpN step f n (i + step) (f i s)
+def foldUp {σ : Type} (lo hi step : Int) (f : Int → σ → σ) (s : σ) : σ := foldUpN step f (iters lo hi step) lo s
+
+def foldUpNM {σ : Type} (step : Int) (f : Int → σ → Option σ) : Nat → Int → σ → Option σ
+  | 0, _, s => some s
+  | n + 1, i, s => (f i s).bind (foldUpNM step f n (i + step))
+def foldUpM {σ : Type} (lo hi step : Int) (f : Int → σ → Option σ) (s : σ) : Option σ :=
+  foldUpNM step f (iters lo hi step) lo s
+
+def loopUpN {σ ρ : Type} (step : Int) (f : Int → σ → Ctl σ ρ) : Nat → Int → σ → Except ρ σ
+  | 0, _, s => .ok s
+  | n + 1, i, s =>
+    match f i s with
+    | .next s' => loopUpN step f n (i + step) s'
+    | .brk s' => .ok s'
+    | .ret r => .error r
+def loopUp {σ ρ : Type} (lo hi step : Int) (f : Int → σ → Ctl σ ρ) (s : σ) : Except ρ σ :=
+  loopUpN step f (iters lo hi step) lo s
+
+def loopUpNM {σ ρ : Type} (step : Int) (f : Int → σ → Option (Ctl σ ρ)) : Nat → Int → σ → Option (Except ρ σ)
+  | 0, _, s => some (.ok s)
+  | n + 1, i, s =>
+    match f i s with
+    | none => none
+    | some (.next s') => loopUpNM step f n (i + step) s'
+    | some (.brk s') => some (.ok s')
+    | some (.ret r) => some (.error r)
+def loopUpM {σ ρ : Type} (lo hi step : Int) (f : Int → σ → Option (Ctl σ ρ)) (s : σ) : Option (Except ρ σ) :=
+  loopUpNM step f (iters lo hi step) lo s
+
+end Go
+
+/-! ### read-only slices of structs (`[]T` ↦ `List T`): len, checked index, range loops
+
+  The same four loop shapes as for byte strings; the element is passed as it is. -/
+namespace Go
+
+def lenL {α : Type} (l : List α) : Int := (l.length : Int)
+def idxL? {α : Type} (l : List α) (i : Int) : Option α := if 0 ≤ i then l[i.toNat]? else none
+
+def foldLFrom {α σ : Type} (f : Int → α → σ → σ) : Int → List α → σ → σ
+  | _, [], s => s
+  | i, x :: xs, s => foldLFrom f (i + 1) xs (f i x s)
+def foldL {α σ : Type} (l : List α) (f : Int → α → σ → σ) (s : σ) : σ := foldLFrom f 0 l s
+
+def foldLFromM {α σ : Type} (f : Int → α → σ → Option σ) : Int → List α → σ → Option σ
+  | _, [], s => some s
+  | i, x :: xs, s => (f i x s).bind (foldLFromM f (i + 1) xs)
+def foldLM {α σ : Type} (l : List α) (f : Int → α → σ → Option σ) (s : σ) : Option σ := foldLFromM f 0 l s
+
+def loopLFrom {α σ ρ : Type} (f : Int → α → σ → Ctl σ ρ) : Int → List α → σ → Except ρ σ
+  | _, [], s => .ok s
+  | i, x :: xs, s =>
+    match f i x s with
+    | .next s' => loopLFrom f (i + 1) xs s'
+    | .brk s' => .ok s'
+    | .ret r => .error r
+def loopL {α σ ρ : Type} (l : List α) (f : Int → α → σ → Ctl σ ρ) (s : σ) : Except ρ σ := loopLFrom f 0 l s
+
+def loopLFromM {α σ ρ : Type} (f : Int → α → σ → Option (Ctl σ ρ)) : Int → List α → σ → Option (Except ρ σ)
+  | _, [], s => some (.ok s)
+  | i, x :: xs, s =>
+    match f i x s with
+    | none => none
+    | some (.next s') => loopLFromM f (i + 1) xs s'
+    | some (.brk s') => some (.ok s')
+    | some (.ret r) => some (.error r)
+def loopLM {α σ ρ : Type} (l : List α) (f : Int → α → σ → Option (Ctl σ ρ)) (s : σ) : Option (Except ρ σ) :=
+  loopLFromM f 0 l s
 
 end Go
